@@ -5,6 +5,7 @@ import CosetProofs.Ties.Compare.Common
 import CosetProofs.Ties.Compare.Header
 import CosetProofs.Ties.Compare.Iana
 import CosetProofs.Ties.Compare.Sign
+import CosetProofs.Ties.IanaTables
 namespace Coset.Props.C08
 
 /-! ### ties to the source text (regenerated on every run, compared in the kernel with the transcribed tree) -/
@@ -24,5 +25,10 @@ theorem tie_compare_sign : Coset.Ties.compareCovered "sign" Coset.Gen.decisionBu
 #print axioms tie_compare_header
 #print axioms tie_compare_iana
 #print axioms tie_compare_sign
+
+/-- the registry tables the streams of this property build values from (by name) are the IANA assignments. -/
+theorem tie_iana_tables : Coset.Ties.IanaTablesOk := Coset.Ties.iana_tables
+
+#print axioms tie_iana_tables
 
 end Coset.Props.C08
